@@ -123,6 +123,9 @@ fn build_response(req: &Message<Vec<u8>>, ask: &Ask, j: u32) -> domain::base::me
             Txt::<Vec<u8>>::build_from_slice(&text).expect("txt")
         })
         .collect();
+    if ask.n >= 300 {
+        ab.clear_push_limit();
+    }
     let q = req.sole_question().ok();
     // The records go to the section the request names (a referral or a
     // negative answer has all its bulk outside the answer section).
@@ -385,7 +388,16 @@ fn gen_ask(k: u32, udp: bool) -> Ask {
         7 => (12 + sim::draw("ask.n_huge", 20) as u32, 255),                                         // beyond 4096
         _ => (1, 20),
     };
-    let m = if !udp && sim::chance("ask.multi", 1, 5) { 2 + sim::draw("ask.m", 12) as u32 } else { 1 };
+    // Over a stream, now and then, as much as a message can hold: the
+    // service pushes records until the builder refuses at the 65535-octet
+    // ceiling.
+    let (n, s) = if !udp && sim::chance("ask.max_size", 1, 40) {
+        sim::stat("probe.response_filled_to_the_64k_ceiling");
+        (300, 255)
+    } else {
+        (n, s)
+    };
+    let m = if !udp && n < 300 && sim::chance("ask.multi", 1, 5) { 2 + sim::draw("ask.m", 12) as u32 } else { 1 };
     let d = match sim::draw("ask.delay", 6) {
         0..=3 => 0,
         4 => sim::draw("ask.delay_ms", 30) as u32,
@@ -673,10 +685,14 @@ async fn stream_client(exec: Exec, led: Led, listener: SimListener, client: usiz
             stall: sim::chance("tcp.stall", 1, 4),
             latency_ms: sim::draw("tcp.latency", 3),
             window: if slow_reader { 64 + sim::draw("tcp.window", 400) as usize } else { 1 << 20 },
+            eintr: false,
         };
+        // The server's reads are interrupted now and then (EINTR: nothing
+        // consumed, to be retried - not a reason to give the connection up).
+        let server_pipe = PipeCfg { eintr: sim::chance("tcp.server_reads_interrupted", 1, 4), ..pipe };
         let planner: Arc<dyn Fn(usize) -> ConnectPlan + Send + Sync> = Arc::new(move |_| ConnectPlan {
             client_cfg: pipe,
-            server_cfg: pipe,
+            server_cfg: server_pipe,
             ..Default::default()
         });
         let connector = listener.connector(addr(10 + client as u8, 7000 + conn as u16), planner);
@@ -1311,6 +1327,18 @@ fn check(led: &Led, max_response_size: Option<u16>, junk: &[Vec<u8>]) {
             }
             if v.tc && s.edns.is_some() && v.opt.is_none() {
                 if sim::violation(P, "udp-size", "truncated-response-lost-opt", format!("truncated response to k={} has no OPT although the query had one", s.ask.k)) {
+                    return;
+                }
+            }
+        }
+        if !s.udp && s.ask.e == 0 && v.full_rcode == 0 && !v.tc {
+            // Over a stream nothing needs to be left out: every record the
+            // service put in arrives (for the fill-to-the-ceiling request:
+            // as many as 65535 octets hold, more than 200).
+            let n_txt = v.recs.iter().filter(|r| r.section == 1 + s.ask.p as u8 && r.rtype == Rtype::TXT).count() as u32;
+            let want_txt = if s.ask.n >= 300 { 200 } else { s.ask.n };
+            if n_txt < want_txt {
+                if sim::violation(P, "framing", "stream-response-lost-records", format!("response to k={} over a stream has {} of the {} records the service put in (TC=0)", s.ask.k, n_txt, s.ask.n)) {
                     return;
                 }
             }
